@@ -787,19 +787,40 @@ IrModel generateModel(Rng &rng, const GenOptions &opt)
                         break;
                     }
                     mp.v2 = rng.pick(cb.vars).name;
-                    mp.v1 = ng.ident("ph");
-                    IrVariable ph;
-                    ph.name = mp.v1;
-                    ca.vars.push_back(ph);
+                    // one placeholder may stand in several map_variables (of this or of another connection)
+                    bool reused = false;
+                    if (!ca.vars.empty() && rng.chance(0.4)) {
+                        mp.v1 = rng.pick(ca.vars).name;
+                        reused = true;
+                        for (const auto &other : cn.maps) {
+                            reused = reused && !(other.v1 == mp.v1 && other.v2 == mp.v2);
+                        }
+                    }
+                    if (!reused) {
+                        mp.v1 = ng.ident("ph");
+                        IrVariable ph;
+                        ph.name = mp.v1;
+                        ca.vars.push_back(ph);
+                    }
                 } else if (cb.import >= 0) {
                     if (ca.vars.empty()) {
                         break;
                     }
                     mp.v1 = rng.pick(ca.vars).name;
-                    mp.v2 = ng.ident("ph");
-                    IrVariable ph;
-                    ph.name = mp.v2;
-                    cb.vars.push_back(ph);
+                    bool reused = false;
+                    if (!cb.vars.empty() && rng.chance(0.4)) {
+                        mp.v2 = rng.pick(cb.vars).name;
+                        reused = true;
+                        for (const auto &other : cn.maps) {
+                            reused = reused && !(other.v1 == mp.v1 && other.v2 == mp.v2);
+                        }
+                    }
+                    if (!reused) {
+                        mp.v2 = ng.ident("ph");
+                        IrVariable ph;
+                        ph.name = mp.v2;
+                        cb.vars.push_back(ph);
+                    }
                 } else {
                     // pick a variable of a, and a variable of b of the same family (make one if needed)
                     size_t ia = rng.below(ca.vars.size());
